@@ -16,12 +16,14 @@ Sim g;
 Json FaultOp::to_json() const {
   Json j = Json::object();
   j.set("role", role); j.set("op", op); j.set("k", k); j.set("kind", kind); j.set("param", param);
+  if (repeat > 1) j.set("repeat", repeat);
   return j;
 }
 FaultOp FaultOp::from_json(const Json& j) {
   FaultOp f;
   f.role = j["role"].as_str(); f.op = j["op"].as_str(); f.k = (int)j["k"].as_int();
   f.kind = j["kind"].as_str(); f.param = j["param"].as_int();
+  f.repeat = j["repeat"].as_int(1);
   return f;
 }
 Json SignalOp::to_json() const {
@@ -131,12 +133,12 @@ FaultOp* Sim::fault(const char* role, const char* op) {
   name += role; name += '.'; name += op;
   int k = yield("io", name.c_str());
   for (auto& f : faults)
-    if (!f.fired && f.k == k && f.op == op && f.role == role) return &f;
+    if (f.op == op && f.role == role && (f.repeat > 1 ? k >= f.k && k - f.k < f.repeat : !f.fired && f.k == k)) return &f;
   return nullptr;
 }
 
 void Sim::note_fired(FaultOp* f) {
-  f->fired = 1;
+  if (f->fired++) { if (f->fired == 2) fired[f->kind + "_persisting"]++; return; }   // a condition that persists (full pipe, full disk) is one fault
   fired[f->kind]++;
   event("FAULT " + f->role + "." + f->op + "#" + std::to_string(f->k) + " " + f->kind + " " + std::to_string(f->param));
 }
